@@ -164,60 +164,70 @@ theorem getattro_ok_slot (E : Env) (t : TraitCore) (s : OSt) (v : Id) (h : (geta
 
 /-! ### Container mutation -/
 
+theorem find?_map_other (rest : List (Id × List Id)) (k x : Id) (v : List Id) (h : x ≠ k) :
+    List.find? (fun e => e.1 == x) (rest.map (fun e => if (e.1 == k) = true then (k, v) else e)) =
+      List.find? (fun e => e.1 == x) rest := by
+  induction rest with
+  | nil => rfl
+  | cons p rest ih =>
+    simp only [List.map_cons, List.find?_cons]
+    by_cases hp : (p.1 == k) = true
+    · have hpk : p.1 = k := by simpa using hp
+      have h1 : (p.1 == x) = false := by simp [hpk]; exact fun e => h e.symm
+      have h2 : ((k, v).1 == x) = false := by simp; exact fun e => h e.symm
+      simp only [hp, if_true, h1, h2]
+      exact ih
+    · simp only [hp, Bool.false_eq_true, if_false]
+      cases hx : (p.1 == x)
+      · exact ih
+      · rfl
+
 theorem heapGet_heapSet_ne (heap : List (Id × List Id)) (k x : Id) (v : List Id) (h : x ≠ k) :
     heapGet (heapSet heap k v) x = heapGet heap x := by
   unfold heapSet
   split
   · unfold heapGet
-    congr 1
-    induction heap with
-    | nil => rfl
-    | cons p rest ih =>
-      simp only [List.map_cons, List.find?_cons]
-      by_cases hp : (p.1 == k) = true
-      · have hpk : p.1 = k := by simpa using hp
-        have : (p.1 == x) = false := by simp [hpk]; exact fun e => h e.symm
-        have h2 : ((k, v).1 == x) = false := by simp; exact fun e => h e.symm
-        simp only [hp, if_true, this, h2]
-        exact ih
-      · simp only [hp, Bool.false_eq_true, if_false]
-        cases hx : (p.1 == x)
-        · exact ih
-        · rfl
+    rw [find?_map_other heap k x v h]
   · exact heapGet_append_ne heap k x v h
+
+theorem find?_map_self (rest : List (Id × List Id)) (k : Id) (v : List Id)
+    (hany : rest.any (fun e => e.1 == k) = true) :
+    List.find? (fun e => e.1 == k) (rest.map (fun e => if (e.1 == k) = true then (k, v) else e)) = some (k, v) := by
+  induction rest with
+  | nil => simp at hany
+  | cons p rest ih =>
+    simp only [List.map_cons, List.find?_cons]
+    by_cases hp : (p.1 == k) = true
+    · simp [hp]
+    · simp only [hp, Bool.false_eq_true, if_false]
+      have : rest.any (fun e => e.1 == k) = true := by
+        simp only [List.any_cons, hp, Bool.false_or] at hany; simpa using hany
+      exact ih this
+
+theorem any_of_heapGet (heap : List (Id × List Id)) (k : Id) (h : (heapGet heap k).isSome = true) :
+    heap.any (fun e => e.1 == k) = true := by
+  unfold heapGet at h
+  cases hf : heap.find? (fun e => e.1 == k) with
+  | none => simp [hf] at h
+  | some p =>
+    have hp : (p.1 == k) = true := by simpa using List.find?_some hf
+    exact List.any_eq_true.mpr ⟨p, List.mem_of_find?_eq_some hf, hp⟩
+
+theorem heapGet_heapSet_self (heap : List (Id × List Id)) (k : Id) (v : List Id)
+    (hk : (heapGet heap k).isSome = true) : heapGet (heapSet heap k v) k = some v := by
+  unfold heapSet
+  simp only [any_of_heapGet heap k hk, if_true]
+  unfold heapGet
+  rw [find?_map_self heap k v (any_of_heapGet heap k hk)]
+  rfl
 
 theorem heapSet_isSome (heap : List (Id × List Id)) (k x : Id) (v : List Id)
     (hk : (heapGet heap k).isSome = true) :
     (heapGet (heapSet heap k v) x).isSome = (heapGet heap x).isSome := by
   by_cases h : x = k
   · subst h
-    rw [hk]
-    unfold heapSet
-    have hany : heap.any (fun e => e.1 == x) = true := by
-      unfold heapGet at hk
-      cases hf : heap.find? (fun e => e.1 == x) with
-      | none => simp [hf] at hk
-      | some p =>
-        have := List.find?_some hf
-        exact List.any_eq_true.mpr ⟨p, List.mem_of_find?_eq_some hf, this⟩
-    simp only [hany, if_true]
-    unfold heapGet
-    induction heap with
-    | nil => simp at hany
-    | cons p rest ih =>
-      simp only [List.map_cons, List.find?_cons]
-      by_cases hp : (p.1 == x) = true
-      · simp [hp]
-      · simp only [hp, Bool.false_eq_true, if_false]
-        have : rest.any (fun e => e.1 == x) = true := by
-          simp only [List.any_cons, hp, Bool.false_or] at hany; simpa using hany
-        have hk' : (heapGet rest x).isSome = true := by
-          unfold heapGet
-          obtain ⟨q, hq, hqx⟩ := List.any_eq_true.mp this
-          cases hf : rest.find? (fun e => e.1 == x) with
-          | none => exact absurd hqx (by have := List.find?_eq_none.mp hf q hq; simpa using this)
-          | some _ => rfl
-        exact ih hk' this
+    rw [hk, heapGet_heapSet_self heap x v hk]
+    rfl
   · rw [heapGet_heapSet_ne _ _ _ _ h]
 
 theorem mutate_frame (c : Ctx) (cid x : Id) :
@@ -271,8 +281,9 @@ theorem onAttr_get_stored (E : Env) (w : World) (i : Nat) (n : Name) (v : Id)
         rw [hr] at h2
         simp only [hr] at h ⊢
         refine ⟨_, setInst_get_self w i o _ _ hi, ?_⟩
+        have hsl : s.slot = some v := h2 h
         unfold Inst.absorb
-        simp only [h2 h]
+        simp only [hsl]
         exact assocGet_assocSet_self _ _ _
 
 theorem onAttr_old_heap (w : World) (i : Nat) (n : Name) (f : TraitCore → OSt → Res × OSt)
@@ -316,7 +327,7 @@ theorem step_frame (E : Env) (w : World) (op : WOp) (i : Nat) (ht : op.target = 
     exact onAttr_frame w j n _ (fun t s => step_sframe E t s (.regObs h))
   | regAny j h =>
     simp only [WOp.target, Option.some.injEq] at ht; subst ht
-    unfold World.step
+    simp only [World.step]
     cases hi : w.insts[j]? with
     | none => exact WFrame.refl j w
     | some o =>
@@ -324,12 +335,13 @@ theorem step_frame (E : Env) (w : World) (op : WOp) (i : Nat) (ht : op.target = 
       refine ⟨rfl, fun k hk _ => setInst_get_other w j k _ _ hk, by simp [World.setInst], ?_, Nat.le_refl _,
         fun _ _ => Or.inl rfl, ⟨[], by simp [World.setInst], by simp⟩, [], by simp [World.setInst], by simp⟩
       intro o2 h2
+      rw [hi] at h2
       injection h2 with h2
       subst h2
       exact ⟨_, setInst_get_self w j o _ _ hi, rfl, rfl⟩
   | addTrait j n t =>
     simp only [WOp.target, Option.some.injEq] at ht; subst ht
-    unfold World.step World.addTrait
+    simp only [World.step, World.addTrait]
     cases hi : w.insts[j]? with
     | none => exact WFrame.refl j w
     | some o =>
@@ -337,6 +349,7 @@ theorem step_frame (E : Env) (w : World) (op : WOp) (i : Nat) (ht : op.target = 
       refine ⟨rfl, fun k hk _ => setInst_get_other w j k _ _ hk, by simp [World.setInst], ?_, Nat.le_refl _,
         fun _ _ => Or.inl rfl, ⟨[], by simp [World.setInst], by simp⟩, [], by simp [World.setInst], by simp⟩
       intro o2 h2
+      rw [hi] at h2
       injection h2 with h2
       subst h2
       exact ⟨_, setInst_get_self w j o _ _ hi, rfl, rfl⟩
@@ -345,7 +358,7 @@ theorem step_frame (E : Env) (w : World) (op : WOp) (i : Nat) (ht : op.target = 
     have hf := onAttr_frame w j n (fun t s => Attr.step E t s .get) (fun t s => step_sframe E t s .get)
     have hold := onAttr_old_heap w j n (fun t s => Attr.step E t s .get) (fun t s => step_sframe E t s .get)
     have hst := onAttr_get_stored E w j n
-    unfold World.step
+    simp only [World.step]
     cases hr : w.onAttr j n (fun t s => Attr.step E t s .get) with
     | mk r w1 =>
       rw [hr] at hf hold hst
@@ -386,7 +399,7 @@ theorem step_frame (E : Env) (w : World) (op : WOp) (i : Nat) (ht : op.target = 
     have hf := onAttr_frame w j n (fun t s => Attr.step E t s .get) (fun t s => step_sframe E t s .get)
     have hold := onAttr_old_heap w j n (fun t s => Attr.step E t s .get) (fun t s => step_sframe E t s .get)
     have hst := onAttr_get_stored E w j n
-    unfold World.step
+    simp only [World.step]
     cases hr : w.onAttr j n (fun t s => Attr.step E t s .get) with
     | mk r w1 =>
       rw [hr] at hf hold hst
@@ -432,29 +445,8 @@ theorem step_frame (E : Env) (w : World) (op : WOp) (i : Nat) (ht : op.target = 
                   simp only [hys]
                   split
                   · simp [hys, hmem]
-                  · have : heapGet (heapSet w1.ctx.heap cid (ys ++ [x])) cid = some (ys ++ [x]) := by
-                      have hs := heapSet_isSome w1.ctx.heap cid cid (ys ++ [x]) (by rw [hys]; rfl)
-                      unfold heapSet at hs ⊢
-                      have hany : w1.ctx.heap.any (fun e => e.1 == cid) = true := by
-                        have : (heapGet w1.ctx.heap cid).isSome = true := by rw [hys]; rfl
-                        unfold heapGet at this
-                        cases hf2 : w1.ctx.heap.find? (fun e => e.1 == cid) with
-                        | none => simp [hf2] at this
-                        | some p =>
-                          exact List.any_eq_true.mpr ⟨p, List.mem_of_find?_eq_some hf2, List.find?_some hf2⟩
-                      simp only [hany, if_true]
-                      unfold heapGet
-                      clear hs
-                      induction w1.ctx.heap with
-                      | nil => simp at hany
-                      | cons p rest ih =>
-                        simp only [List.map_cons, List.find?_cons]
-                        by_cases hp : (p.1 == cid) = true
-                        · simp [hp]
-                        · simp only [hp, Bool.false_eq_true, if_false]
-                          have : rest.any (fun e => e.1 == cid) = true := by
-                            simp only [List.any_cons, hp, Bool.false_or] at hany; simpa using hany
-                          exact ih this
+                  · have : heapGet (heapSet w1.ctx.heap cid (ys ++ [x])) cid = some (ys ++ [x]) :=
+                      heapGet_heapSet_self _ _ _ (by rw [hys]; rfl)
                     simp [this, hmem]
                 · rw [hm.2.2.2.1 cid hcy, hys]
                   exact hmem
